@@ -749,8 +749,13 @@ class VectorContainer:
 
             # Copy over individual values
             # TODO: Vectorise this?
+            # (object-dtype variables hold references: copy the objects, too,
+            # so that the result shares nothing with the original)
             for new, old in positions.items():
-                reindexed[name][new] = self[name][old]
+                if self[name].dtype == object:
+                    reindexed[name][new] = copy.deepcopy(self[name][old])
+                else:
+                    reindexed[name][new] = self[name][old]
 
         return reindexed
 
